@@ -41,6 +41,66 @@ TIMING_VALUATIONS = [
 ]
 
 
+class Uniform(tuple):
+    """the value of random.uniform(lo, hi): ("uniform", lo, hi).  Arithmetic moves the window (the result is then no longer
+    the configured window); a comparison is decided when both ends agree and is otherwise a decision on a random value."""
+
+    def __new__(cls, lo, hi):
+        return tuple.__new__(cls, ("uniform", lo, hi))
+
+    def _map(self, f, flip=False):
+        a, b = f(self[1]), f(self[2])
+        return Uniform(b, a) if flip else Uniform(a, b)
+
+    def _num(self, o):
+        if isinstance(o, Uniform) or not isinstance(o, (int, float)):
+            raise AnalysisError(f"arithmetic of a random delay with {o!r}")
+        return o
+
+    def __add__(self, o):
+        o = self._num(o)
+        return self._map(lambda x: x + o)
+    __radd__ = __add__
+
+    def __sub__(self, o):
+        o = self._num(o)
+        return self._map(lambda x: x - o)
+
+    def __rsub__(self, o):
+        o = self._num(o)
+        return self._map(lambda x: o - x, flip=True)
+
+    def __mul__(self, o):
+        o = self._num(o)
+        return self._map(lambda x: x * o, flip=o < 0)
+    __rmul__ = __mul__
+
+    def __truediv__(self, o):
+        o = self._num(o)
+        return self._map(lambda x: x / o, flip=o < 0)
+
+    def _cmp(self, o, op):
+        o = self._num(o)
+        a, b = op(self[1], o), op(self[2], o)
+        if a != b:
+            raise AnalysisError(f"a decision depends on where in its window ({self[1]}, {self[2]}) a random delay falls (compared with {o})")
+        return a
+
+    def __lt__(self, o):
+        return self._cmp(o, lambda x, y: x < y)
+
+    def __le__(self, o):
+        return self._cmp(o, lambda x, y: x <= y)
+
+    def __gt__(self, o):
+        return self._cmp(o, lambda x, y: x > y)
+
+    def __ge__(self, o):
+        return self._cmp(o, lambda x, y: x >= y)
+
+    __hash__ = tuple.__hash__
+
+
 def timing_leaf(owner_self, overrides=None, extra=None, valuation=None):
     vals = dict(valuation if valuation is not None else TIMING_VALUES)
     vals.update(overrides or {})
@@ -51,7 +111,7 @@ def timing_leaf(owner_self, overrides=None, extra=None, valuation=None):
         if tm[0] == "elem" and tm[1][0] == "call" and tm[1][1] == ("ext", "range"):
             return tm[3]
         if tm[0] == "call" and tm[1] == ("ext", "random.uniform") and len(tm[2]) == 2:
-            return ("uniform", eval_term(tm[2][0], leaf), eval_term(tm[2][1], leaf))
+            return Uniform(eval_term(tm[2][0], leaf), eval_term(tm[2][1], leaf))
         if extra is not None:
             r = extra(tm)
             if r is not None:
@@ -117,7 +177,9 @@ def check(run, prog, tier):
         BASE, IMIN, IMAX = V["REPETITIONS_BASE_DELAY"], V["INITIAL_DELAY_MIN"], V["INITIAL_DELAY_MAX"]
         for p in paths:
             try:
-                if not all(bool(eval_term(c, leaf)) == v for c, v, _, _ in p.conds if not contains(c, lambda s: s[0] == "attr" and s[2] == "ANNOUNCE_TTL")):
+                # (what the task is handed by whoever starts it is an input: decisions on its parameters are taken both ways)
+                if not all(bool(eval_term(c, leaf)) == v for c, v, _, _ in p.conds if not contains(c, lambda s: s[0] == "attr" and s[2] == "ANNOUNCE_TTL")
+                           and not contains(c, lambda s: s[0] == "param" and s[1] == ot.qual)):
                     continue
             except AnalysisError:
                 continue
@@ -130,7 +192,12 @@ def check(run, prog, tier):
                     if a is None:
                         note("O1:unexpected-await", f"the task awaits {show(e.value)[:60]}")
                         continue
-                    seq.append(("sleep", eval_term(a, leaf)))
+                    try:
+                        seq.append(("sleep", eval_term(a, leaf)))
+                    except AnalysisError:
+                        if not contains(a, lambda s: s[0] == "param" and s[1] == ot.qual):
+                            raise
+                        seq.append(("sleep", f"<{show(a)[:60]}: chosen by the caller>"))
                     if e.raised:
                         seq.append(("cancel",))
                         cancelled_at = len([s for s in seq if s[0] == "sleep"])
